@@ -404,7 +404,7 @@ def nontrivial(case):
         sum(njobs(n) for n in case["nodes"]) >= 3
 
 
-TIES = {"async": "tie_async", "sync": "tie_sync", "rerun": "tie_rerun", "state": "tie_sched", "coerce": "tie_sched"}
+TIES = {"async": "tie_async", "sync": "tie_sync", "rerun": "tie_rerun", "state": "tie_sched", "coerce": "tie_sched", "hook": "tie_sched"}
 NO_TIE = "(fun _ : case_t => true)"      # cf / rerun_gen / rerun_sync / rerun_cf / state_sync / state_cf: spec only
 
 
@@ -583,4 +583,4 @@ def replay_case(ctx, payload, spec_defs):
 
 def slim(obs):
     return {k: obs.get(k) for k in ("outcome", "exc", "failed_named", "evlog", "launches", "steps", "outputs", "maxlive",
-                                    "order", "msg", "cf_peak", "cf_bodies", "generations") if k in obs}
+                                    "order", "msg", "cf_peak", "cf_bodies", "generations", "hook_calls") if k in obs}
